@@ -271,9 +271,18 @@ func c11Gen(r *vRand, idx int) *c11Grammar {
 	return g
 }
 
+// c11Inv: how the invalid symbol is spelled in the texts of this grammar: 0xff, or (every other
+// grammar) a stray continuation byte 0x80 - both must decode to U+FFFD, width 1.
+func c11Inv(g *c11Grammar) byte {
+	if g.idx%2 == 1 {
+		return 0x80
+	}
+	return 0xff
+}
+
 // c11Spec is the specified token stream of the symbol sequence text.
 func c11Spec(g *c11Grammar, text []rune) []c11Tok {
-	src, offs := lgEncode(text, g.m)
+	src, offs := lgEncodeInv(text, g.m, c11Inv(g))
 	lc := func(off int) (int, int) {
 		return 1 + strings.Count(src[:off], "\n"), off - (strings.LastIndexByte(src[:off], '\n') + 1) + 1
 	}
@@ -486,7 +495,7 @@ func TestVerifC11(t *testing.T) {
 		}
 		texts[g.idx] = all
 		for _, tx := range all {
-			src, _ := lgEncode(tx, g.m)
+			src, _ := lgEncodeInv(tx, g.m, c11Inv(g))
 			inputs[g.idx] = append(inputs[g.idx], enchex.EncodeToString([]byte(src)))
 		}
 	}
@@ -524,7 +533,7 @@ func TestVerifC11(t *testing.T) {
 			ck.Case(len(tx) > 0)
 			have := got[g.idx][k]
 			if fmt.Sprint(want) != fmt.Sprint(have) {
-				src, _ := lgEncode(tx, g.m)
+				src, _ := lgEncodeInv(tx, g.m, c11Inv(g))
 				ck.Failf(map[string]interface{}{"grammar": g.text, "input": src}, "generated lexer (inline=%v, bytes=%v, fold=%v, %d start conditions) on %q returns %v, the rules specify %v", g.inline, g.m.bytes, g.m.fold, g.nsc, src, have, want)
 				if bad++; bad >= 2 {
 					break
